@@ -40,6 +40,7 @@ class Engine:
         self.relevance = os.environ.get("VF_RELEVANCE", "1") == "1"
         self.opaque_ext = os.environ.get("VF_OPAQUE_EXT", "1") == "1"  # abs/max/min as shared defined symbols instead of If-terms
         self._som_cache = {}
+        self.partial_ok = False
         self.branch_timeout_ms = int(os.environ.get("VF_BRANCH_TIMEOUT_MS", "3000"))
         self.perturb = None  # None or z3 Real delta: comparisons decided with margin (C06-tie mode)
 
@@ -199,6 +200,11 @@ class Engine:
                 self._reset(prefix)
                 self.stats["paths"] += 1
                 if self.stats["paths"] > self.max_paths:
+                    if self.partial_ok:
+                        # stated bound: only the first max_paths paths (depth-first order) are explored; recorded as truncated
+                        self.stats["paths"] -= 1
+                        self.stats["truncated"] = len(self.work) + 1
+                        return
                     raise Inconclusive(f"path budget {self.max_paths} exceeded")
                 Engine.cur = self
                 try:
@@ -366,16 +372,22 @@ def _symbols(t):
     return _SYM_CACHE[k][1]
 
 
+_ABS_CACHE = {}   # term id -> (term kept alive, abstracted term)
+_ABS_NAMES = {}   # term id -> (term kept alive, opaque symbol)
+
+
 def abstract_nonlinear(formulas):
-    """replace non-linear arithmetic sub-terms by fresh reals (same term -> same symbol)"""
-    cache = {}
-    names = {}
+    """replace non-linear arithmetic sub-terms by fresh reals (same term -> same symbol; the table is process-wide so that repeated queries are cheap)"""
+    if len(_ABS_CACHE) > 400000:
+        _ABS_CACHE.clear(); _ABS_NAMES.clear()
+    cache = _ABS_CACHE
+    names = _ABS_NAMES
 
     def opaque(t):
         k = t.get_id()
         if k not in names:
-            names[k] = z3.Real(f"nl!{len(names)}")
-        return names[k]
+            names[k] = (t, z3.Real(f"nl!{len(names)}"))
+        return names[k][1]
 
     def is_num(t):
         return z3.is_rational_value(t) or z3.is_int_value(t) or z3.is_algebraic_value(t)
@@ -383,7 +395,7 @@ def abstract_nonlinear(formulas):
     def walk(t):
         k = t.get_id()
         if k in cache:
-            return cache[k]
+            return cache[k][1]
         r = t
         if z3.is_app(t) and t.num_args() > 0:
             kind = t.decl().kind()
@@ -407,7 +419,7 @@ def abstract_nonlinear(formulas):
                 r = t.decl()(*[walk(c) for c in ch])
         elif z3.is_quantifier(t):
             r = t
-        cache[k] = r
+        cache[k] = (t, r)
         return r
     return [walk(f) for f in formulas]
 
